@@ -460,6 +460,9 @@ def fold_python_and_types(idx: Index):
     nots = [msg("textDocument/seedNote", "SeedNoteNotification", registrationOptions=a4)]
     spec = Record("LSPModel", {"structures": [], "enumerations": [], "typeAliases": [], "requests": reqs, "notifications": nots})
     it = Interp(m.tree, name=P_PYUTILS)
+    from .microeval import ClassRef as _CR
+    for cn_ in mclasses:
+        it.globals.setdefault(cn_, _CR(cn_))       # names the model's own methods refer to (isinstance(other, AndType))
     got = []
     stubs = {"_add_and_type": ("host", lambda type_def, name, *a, **k: got.append(name)),
              "_has_type": ("host", lambda *a, **k: False), "_lsp_model": spec}
